@@ -893,4 +893,5 @@ THEOREMS = THEOREMS + ["OdxVerif.Codec." + t for t in [
     "C05_request_local", "extractCore_local", "C05_truncated_param_described2", "C05_truncated_minmax_described2",
     "C05_truncated_leading_described2", "C05_truncated_matching_described2", "C05_truncated_reserved_described2",
     "C05_truncated_minmax_described2_example", "C05_truncated_matching_described2_example",
-    "C05_truncated_leading_described2_example", "C05_truncated_reserved_described2_example"]]
+    "C05_truncated_leading_described2_example", "C05_truncated_reserved_described2_example",
+    "C05_leaf_requests_are_reads_partial", "decodeDctL_requests", "extractAtomicL_strict"]]
